@@ -61,7 +61,7 @@ StringDictionaryPFC::StringDictionaryPFC(IteratorDictString *it,
   uint lenCurrent = 0, lenPrev = 0;
 
   // Variables for strings management
-  size_t reservedStrings = MEMALLOC * bucketsize;
+  size_t reservedStrings = MEMALLOC * this->bucketsize;
   textStrings = new uchar[reservedStrings];
   std::vector<size_t> xblStrings;
 
@@ -77,7 +77,7 @@ StringDictionaryPFC::StringDictionaryPFC(IteratorDictString *it,
     while ((bytesStrings + (2 * lenCurrent)) > reservedStrings)
       reservedStrings = Reallocate(&textStrings, reservedStrings);
 
-    if ((elements % bucketsize) == 0) {
+    if ((elements % this->bucketsize) == 0) {
       // First string in the current bucket!
       // ===================================
 
